@@ -61,6 +61,7 @@ type sys struct {
 	// still pending, was rolled back, or died in a restart); its nodes were published to the global
 	// memTree by Tree.Hash although they were never persisted
 	aliased     bool
+	poisoned    bool
 	everPending []ver
 	allCommits  []ver
 	canon       string
@@ -129,7 +130,7 @@ func (s *sys) mkCanon() {
 
 // classify turns a failure into a fingerprint class; the one known defect class gets its own.
 func (s *sys) classify(class, detail string) string {
-	if s.cfg.MemTree && s.cfg.Prefix && s.aliased && (strings.Contains(detail, "ErrNodeNotExist") || strings.HasPrefix(class, "committed-root-")) {
+	if s.cfg.MemTree && s.cfg.Prefix && s.aliased && strings.Contains(detail, "ErrNodeNotExist") {
 		return "node-missing:memTree+prefix:node-of-uncommitted-pending-update-served-from-memTree| " + class + ": " + vx.Norm(detail, 100)
 	}
 	return class + ":" + s.cfg.Name + "| " + detail
@@ -165,7 +166,25 @@ func (h harness) seq(r *vx.Run) *vx.Seq[*sys] {
 		return s
 	}
 	q.OpName = h.opName
-	q.Apply = func(s *sys, i int) (fail string) {
+	suppress := func(s *sys, f string) string {
+		if sup := os.Getenv("VERIF_SUPPRESS"); sup != "" && f != "" && strings.Contains(f, sup) {
+			// mutation demonstrations only: a failure class already reported is counted, not raised,
+			// and the history is not extended
+			r.Count("suppressed_cases", 1)
+			s.poisoned = true
+			s.canon = "poisoned"
+			return ""
+		}
+		return f
+	}
+	inner := func(s *sys, i int) string { return "" }
+	q.Apply = func(s *sys, i int) string {
+		if s.poisoned {
+			return ""
+		}
+		return suppress(s, inner(s, i))
+	}
+	inner = func(s *sys, i int) (fail string) {
 		defer func() {
 			if fail == "" {
 				s.mkCanon()
@@ -274,7 +293,14 @@ func (h harness) seq(r *vx.Run) *vx.Seq[*sys] {
 		return ""
 	}
 	full := []mvx.Bound{{Nil: true}}
+	check := func(s *sys) string { return "" }
 	q.Check = func(s *sys) string {
+		if s.poisoned {
+			return ""
+		}
+		return suppress(s, check(s))
+	}
+	check = func(s *sys) string {
 		for i, v := range s.committed {
 			var f string
 			perr := vx.Catch(func() {
